@@ -88,9 +88,40 @@ def undecodable_cases(tier, seed):
                     i += 1
 
 
+def shared_payload_and_lost_response_cases(tier, seed):
+    """(a) several invokes / JSON callbacks receive the SAME payload text, the workflow updates each delivered container in place,
+    and the execution is replayed (also in a warm process): every delivery must still be the recorded payload; (b) the response to
+    the call carrying an invoke / callback START is lost (the service applied it): the START must not go on the wire a second time."""
+    i = 0
+    for shape in ("top", "branch"):
+        for warm in (False, True):
+            ops = [{"k": "invoke", "fn": "f%d" % j, "payload": j, "mutate": True} for j in range(2)] + \
+                  [{"k": "cb", "cfg": {"serdes": "json"}, "mutate": True}, {"k": "wait", "s": 1}, {"k": "invoke", "fn": "g", "payload": 9, "mutate": True}, {"k": "wait", "s": 1}, {"k": "step", "val": "end"}]
+            body = ops if shape == "top" else [{"k": "par", "branches": [{"body": ops}, {"body": [{"k": "step", "val": 1}]}], "cfg": {"preset": "all_completed"}}]
+            pre = "" if shape == "top" else "0/b0/"
+            comp = {pre + str(k): {"when": "between", "status": "SUCCEEDED", "result": '{"items": ["a"], "n": 1}'} for k in (0, 1, 2, 4)}
+            yield {"label": "same-payload-mutated-%s%s" % (shape, "-warm" if warm else ""), "prog": {"body": body}, "prog_seed": 9900 + i, "pattern": {"p": "plain"},
+                   "world": {"complete": comp}, "opts": {"warm": warm}, "max_inv": 20}
+            i += 1
+    lost = [{"kind": "plain", "cls": "TimeoutError", "message": "read timeout"}, {"kind": "plain", "cls": "RuntimeError", "message": "socket closed"},
+            {"kind": "client", "status": 400, "code": "ValidationException", "message": "bad request"}]
+    for body in ([{"k": "step", "val": 1}, {"k": "invoke", "fn": "f", "payload": {"a": 1}, "cfg": {"timeout": 30}}, {"k": "step", "val": 2}],
+                 [{"k": "step", "val": 1}, {"k": "cb"}, {"k": "step", "val": 2}],
+                 [{"k": "par", "branches": [{"body": [{"k": "invoke", "fn": "f", "payload": 1}]}, {"body": [{"k": "cb"}]}], "cfg": {"preset": "all_completed"}}]):
+        for k in range(1, 5):
+            for err in lost:
+                if tier == "quick" and (k + i) % 2:
+                    i += 1
+                    continue
+                yield {"label": "start-response-lost", "prog": {"body": body}, "prog_seed": 9950 + i, "pattern": {"p": "plain"}, "max_inv": 14, "max_raises": 4,
+                       "faults": [{"match": {"op": "checkpoint", "n": k}, "err": err, "when": "after"}], "opts": {"hang_s": 3.0}}
+                i += 1
+
+
 def explicit_all(tier, seed):
     yield from explicit(tier, seed)
     yield from undecodable_cases(tier, seed)
+    yield from shared_payload_and_lost_response_cases(tier, seed)
 
 
 SPEC = Spec(
